@@ -39,6 +39,7 @@ def run(tier, seed, t0):
     floors = {
         "runs_decided": (m.nontrivial, int(0.75 * n)),
         "runs_into_a_folder_used_by_an_earlier_run": fl("output_folder_used_by_an_earlier_run", 15),
+        "runs_after_an_earlier_run_in_the_same_process": fl("earlier_run_in_the_same_process", 15),
         "populations_of_cells_that_never_move": fl("populations_of_cells_that_never_move", 2),
         "cells_entering_with_unused_slots": fl("cells_entering_with_unused_slots", 40),
         "runs_S_eq_dt": fl("feature:S_eq_dt", 12),
